@@ -2,8 +2,8 @@
 
 Used by C06 (round trip), C08 (IDs), C09 (copies) and C17 (instance files).
 Generator restrictions (each is something the VMF text format cannot carry; see DESIGN.md 4.1):
-  * KV keys (entity keys, output names, fixup variable names) contain no CR/LF; entity keys never equal "id"
-    and never look like replaceNN; fixup variable names have no whitespace and no leading '$'.
+  * KV keys (entity keys, output names, fixup variable names) contain no CR/LF; an entity key called "id" never has a
+    value made of digits (the reader takes that for the entity's ID) and keys never look like replaceNN; fixup variable names have no whitespace and no leading '$'.
   * output fields never contain ESC (0x1b); with comma separators only `params` may contain commas.
   * instance names contain no ';'; output/input names only start with "instance:" when inst_out/inst_in is set.
   * logical_pos keeps its "[x y]" shape; cordon_enabled only with a cordon; active_cam only with a camera.
@@ -174,8 +174,14 @@ def gen_entity(rng, vmf, features, vis_ids: List[int], group_ids: List[int], bru
     for _ in range(rng.randint(0, 6)):
         # (the second row: keys that are spelled like the BLOCKS of an entity - "solid" "6" is what every prop_static carries)
         k = rng.choice(('origin', 'angles', 'model', 'message', 'spawnflags', 'file', 'replace_mode', 'ReplaceWith', 'replace', ident(rng), hostile(rng, 8, newlines=False, p=0.5),
-                        'solid', 'editor', 'connections', 'hidden', 'group', 'side', 'world', 'entity', 'Solid'))
+                        'solid', 'editor', 'connections', 'hidden', 'group', 'side', 'world', 'entity', 'Solid', 'id', 'ID'))
         k = k.replace('\r', '').replace('\n', '') or 'k'
+        if k.casefold() == 'id' and not any(o.casefold() == 'id' for o in keys):
+            # a keyvalue that happens to be called "id": only a value made of digits is taken for the entity's ID by the
+            # reader, every other value is an ordinary keyvalue of the entity
+            keys[k] = rng.choice(('-5', '+7', ' 12', '3 ', '1_000', '-0', 'abc', '', '12a', '0x10', '1.0', '\u00b2', '\u00bd', '1e3'))
+            features['key_named_id'] = features.get('key_named_id', 0) + 1
+            continue
         if k.casefold() == 'id' or (k.casefold().startswith('replace') and k[-2:].isdigit()) or k.casefold() in ('classname', 'targetname', 'nodeid'):
             k = 'key_' + k
         keys[k] = rng.choice((hostile(rng, 14), str(coord(rng)), vec(rng), rng.random() < 0.5, rng.randrange(100), coord(rng)))
